@@ -31,6 +31,7 @@ RULE = (
     'creation (max_steps reported by the solution); nothing a thread or a copied context does changes what another '
     'one reads. non-trivial = nesting depth >= 2 and (an exception exit or an inverse applied after its block was '
     'left), or >= 2 thread switches while two threads have open blocks. distinct = distinct event sequences.'
+    ' Also: the same operator object is inverted again and again (.I, .inverse(), InverseOperator(op)), under different configurations and from different threads: every inverse carries the configuration active at its own creation.'
 )
 ASSUMPTIONS = [
     'interleavings are explored at the granularity of API events (the harness owns the schedule), not of bytecodes',
